@@ -14,7 +14,7 @@ RULE = ('per-level sparsity patterns: exhaustive over all non-empty 0/1 patterns
         'x row/column subsets (empty, unsorted, all) x data tensors x level permutations; knot-vector pairs (different degrees, repeated '
         'knots, same and nested meshes); a case is one structure; distinct by its patterns; non-trivial if it has >= 2 nonzeros')
 MIN_NONTRIVIAL = {'quick': 1500, 'thorough': 30000}
-REQUIRED_COUNTERS = ['oracle:nonzero_order', 'oracle:lower_tri', 'oracle:rows', 'oracle:columns', 'oracle:matvec', 'oracle:asmatrix',
+REQUIRED_COUNTERS = ['oracle:nonzero_order', 'oracle:lower_tri', 'oracle:rows', 'oracle:columns', 'oracle:matvec', 'oracle:matvec_result_not_aliased', 'oracle:asmatrix',
                      'oracle:reorder', 'oracle:transpose', 'oracle:kron_partial', 'oracle:sparsity_kvs', 'oracle:index_maps']
 VARIANTS = {'quick': ['plain'], 'thorough': ['plain', 'asan']}
 WORKERS_SAN = 8
@@ -138,6 +138,13 @@ def _check_structure(rec, case, mats, rng, sig):
             if ok3 and not np.array_equal(A2.toarray(), K): bad('asmatrix from data tensor')
         x = rng.standard_normal(N)
         ok2, y = guarded(rec, case, dict(sig, route='matvec'), X.dot, x)
+        if ok2 and y is not None:
+            # a result stays what it was when the same matrix is applied again
+            ysnap = np.array(y, copy=True)
+            ok3, y_other = guarded(rec, case, dict(sig, route='matvec'), X.dot, -2.0 * np.asarray(x) + 1.0)
+            rec.count('oracle:matvec_result_not_aliased')
+            if ok3 and not np.array_equal(np.asarray(y), ysnap):
+                rec.violation(dict(sig, route='matvec', oracle='a returned product is not changed by later products'), case, {})
         if ok2:
             y = np.asarray(y)
             if y.shape != (M,):
